@@ -117,7 +117,8 @@ Definition translate_spec (s map trans : ustr) : ustr :=
                      | Some k => match nth_error trans k with Some r => [r] | None => [] end
                      end) s.
 
-(* ---- normalize-space: ' '.join(arg.strip().split()) for a whitespace predicate ws ---- *)
+(* ---- normalize-space: ' '.join(x for x in re.split('[ \t\n\r]+', arg) if x): the non-empty pieces between maximal
+   runs of whitespace, for a whitespace predicate ws ---- *)
 Section NormalizeSpace.
 Variable ws : Z -> bool.
 (* split(): maximal runs of non-whitespace *)
@@ -131,7 +132,10 @@ Fixpoint join_sp (ts : list ustr) : ustr :=
   match ts with [] => [] | [t] => t | t :: r => t ++ 32 :: join_sp r end.
 Definition normalize_space (s : ustr) : ustr := join_sp (tokens s []).
 End NormalizeSpace.
-(* str.isspace() of CPython 3.12 (modelled external), and the XML whitespace of the specification *)
+(* the whitespace class of the code (the character class of its re.split pattern; source-shape fact
+   normalize_space_xml_whitespace), str.isspace() of CPython 3.12 (the class of str.split(), used by the code before
+   the repair), and the XML whitespace of the specification *)
+Definition code_ws (c : Z) : bool := (c =? 32) || (c =? 9) || (c =? 10) || (c =? 13).
 Definition py_isspace (c : Z) : bool :=
   ((9 <=? c) && (c <=? 13)) || ((28 <=? c) && (c <=? 32)) || (c =? 133) || (c =? 160) || (c =? 5760)
   || ((8192 <=? c) && (c <=? 8202)) || (c =? 8232) || (c =? 8233) || (c =? 8239) || (c =? 8287) || (c =? 12288).
